@@ -1,3 +1,4 @@
+// +build amd64 force64bit
 // +build !force32bit
 
 package ed25519
